@@ -1054,6 +1054,71 @@ impl State {
                     out.join(";")
                 })
             }
+            ["sdecmany", count, h] => {
+                // the same well-formed frame `count` times over one stream (gigabytes in total), then hostile announcements:
+                // whatever the process has counted by then, they are refused as cheaply and safely as at the start
+                let (count, f) = match (count.parse::<u64>().ok(), unhex(h)) {
+                    (Some(c), Some(f)) => (c, f),
+                    _ => return "bad-op".into(),
+                };
+                let dict = self.dict.clone();
+                self.rt.block_on(async move {
+                    let mut stream = crate::sio::Repeating::new(f, count);
+                    let mut ok = 0u64;
+                    loop {
+                        match diameter::transport::Codec::decode(&mut stream, dict.clone()).await {
+                            Ok(_) => ok += 1,
+                            Err(_) => break,
+                        }
+                    }
+                    let mut hostile = vec![];
+                    for pre in [[1u8, 0, 0, 0], [1, 0, 0, 19], [1, 0x10, 0, 1], [1, 0xff, 0xff, 0xff]] {
+                        let mut s2 = crate::sio::Scripted::new(vec![crate::sio::REv::Data(pre.to_vec()), crate::sio::REv::Data(vec![0u8; 64])], vec![]);
+                        let r = diameter::transport::Codec::decode(&mut s2, dict.clone()).await;
+                        let used = s2.0.lock().unwrap().consumed;
+                        hostile.push(format!("{}@{}", if r.is_ok() { "ok" } else { "err" }, used));
+                    }
+                    format!("ok={} consumed={} hostile={}", ok, stream.consumed, hostile.join(","))
+                })
+            }
+            ["servemany", count, h] => {
+                // one connection of the server carrying `count` copies of a request, each answered with saved message 0
+                let (count, f) = match (count.parse::<u64>().ok(), unhex(h)) {
+                    (Some(c), Some(f)) => (c, f),
+                    _ => return "bad-op".into(),
+                };
+                // (a message cannot be cloned: the answer is rebuilt from its encoding at every call)
+                let ans: Arc<Vec<u8>> = match self.saved.first().and_then(|x| x.as_ref()) {
+                    Some(a) => {
+                        let mut v = Vec::new();
+                        if a.encode_to(&mut v).is_err() {
+                            return "bad-op".into();
+                        }
+                        Arc::new(v)
+                    }
+                    None => return "bad-op".into(),
+                };
+                let adict = self.dict.clone();
+                let dict = self.dict.clone();
+                self.rt.block_on(async move {
+                    use std::cell::Cell;
+                    use std::rc::Rc;
+                    let calls = Rc::new(Cell::new(0u64));
+                    let c2 = calls.clone();
+                    let handler = move |_req: DiameterMessage| {
+                        c2.set(c2.get() + 1);
+                        let a = DiameterMessage::decode_from(&mut Cursor::new(&ans[..]), adict.clone());
+                        async move { a }
+                    };
+                    let mut stream = crate::sio::Repeating::new(f, count);
+                    let r = std::panic::AssertUnwindSafe(diameter::transport::DiameterServer::verif_serve_stream(&mut stream, handler, dict));
+                    let end = match futures_catch(r).await {
+                        Ok(_) => "done",
+                        Err(_) => "panic",
+                    };
+                    format!("calls={} consumed={} written={} end={}", calls.get(), stream.consumed, stream.written, end)
+                })
+            }
             ["senc", w] => {
                 let w = match crate::sio::parse_wevs(w) {
                     Some(w) => w,
@@ -1637,4 +1702,15 @@ impl std::io::Write for FaultWriter {
     fn flush(&mut self) -> std::io::Result<()> {
         Ok(())
     }
+}
+
+/// run a future to completion, turning a panic inside it into an error (what `tokio::spawn` does for a task)
+async fn futures_catch<F: std::future::Future + std::panic::UnwindSafe>(f: F) -> std::result::Result<F::Output, ()> {
+    let mut f = Box::pin(f);
+    std::future::poll_fn(move |cx| match std::panic::catch_unwind(std::panic::AssertUnwindSafe(|| f.as_mut().poll(cx))) {
+        Ok(std::task::Poll::Ready(v)) => std::task::Poll::Ready(Ok(v)),
+        Ok(std::task::Poll::Pending) => std::task::Poll::Pending,
+        Err(_) => std::task::Poll::Ready(Err(())),
+    })
+    .await
 }
